@@ -1227,5 +1227,5 @@ func randomLevel(t *testing.T, level string, quickN, thoroughN int) {
 	})
 }
 
-func TestGdbiLevel(t *testing.T)   { randomLevel(t, "gdbi", 1600, 120000) }
-func TestServerLevel(t *testing.T) { randomLevel(t, "server", 560, 40000) }
+func TestGdbiLevel(t *testing.T)   { randomLevel(t, "gdbi", 1600, 48000) }
+func TestServerLevel(t *testing.T) { randomLevel(t, "server", 560, 16000) }
